@@ -397,6 +397,21 @@ def split_args(s, kind):
     return [a.strip() for a in out if a.strip() != '']
 
 
+def split_params(s):
+    """split a typed parameter list at top-level commas (angle brackets count as delimiters here)."""
+    out, depth, last = [], 0, 0
+    for i, c in enumerate(s):
+        if c in '([{<':
+            depth += 1
+        elif c in ')]}>' and not (c == '>' and i > 0 and s[i - 1] == '-'):
+            depth -= 1
+        elif c == ',' and depth == 0:
+            out.append(s[last:i])
+            last = i + 1
+    out.append(s[last:])
+    return [a.strip() for a in out if a.strip() != '']
+
+
 def r7_asserts(t):
     def f(t):
         for m in code_finditer(t.s, t.k, r'\b(assert_ne|assert_eq|assert|debug_assert)!\s*\('):
@@ -733,7 +748,7 @@ def lift_one(d, repo, canary=False, rename_suffix=None):
         orig_params = body.s[p + 1:q]
         names_o = [re.sub(r'[:].*', '', x).strip().lstrip('&').replace('mut ', '').strip() for x in orig_params.split(',') if x.strip()]
         params = kv.get('params', orig_params)
-        names_n = [re.sub(r'[:].*', '', x, flags=re.S).strip() for x in split_args(params, mask(params))]
+        names_n = [re.sub(r'[:].*', '', x, flags=re.S).strip() for x in split_params(params)]
         if [n.replace('mut ', '') for n in names_n] != names_o and 'params' in kv and not kv.get('renames'):
             raise LiftError("%s: closure params %r do not match source %r" % (info['name'], params, orig_params))
         # body extent
